@@ -46,6 +46,51 @@ def is_join(c):
     return c['path'] == 'rayon::join' or c['path'].endswith('rayon_core::join::join') or c['path'] == 'rayon_core::join'
 
 
+def stage_helper(prog):
+    """-> predicate on Fn: the free helper functions of the Stage module. The stage rules read Stage::run* with
+    these walked inline, so that what is decided does not depend on which side of the call a step is written."""
+    mod = STAGE_T.rsplit('::', 1)[0] + '::'
+    return lambda c: c.kind == 'Fn' and c.path.startswith(mod) and '::' not in c.path[len(mod):]
+
+
+def helper_verdict(prog, p, e):
+    """The yes/no a helper call gave on path p: a bool, `Ok`/`Err`, or the one bool carried in a returned tuple.
+    e: call event or inlined call (State.entered). -> True | False | None"""
+    v = e.get('ret')
+    if v is None:
+        return None
+    def const(x):
+        if x in (pathsem.TRUE, ('c', 1)):
+            return True
+        if x in (pathsem.FALSE, ('c', 0)):
+            return False
+        return None
+    if const(v) is not None:
+        return const(v)
+    if isinstance(v, tuple) and v[0] == 'agg':
+        if v[1] == 'core::result::Result':
+            return v[2] == 'Ok'
+        if v[1] == 'tuple':
+            out = (e['callee'].d.get('output') if e.get('callee') is not None else None) or {}
+            bs = [const(x) for k_, x in enumerate(v[4]) if const(x) is not None and (out.get('k') != 'tuple' or k_ >= len(out.get('e', [])) or out['e'][k_].get('name') == 'bool')]
+            return bs[0] if len(bs) == 1 else None
+        return None
+    # an opaque call: what the path assumed about its result
+    if p.lookup(v) is True or p.lookup(v) is False:
+        return p.lookup(v)
+    cal = prog.fns.get((e['f'].get('res') or e['f']).get('dp'))
+    out = (cal.d.get('output') if cal is not None else None) or {}
+    if is_adt(out, 'core::result::Result'):
+        d = p.lookup(('discr', v))
+        return None if d is None else d == 0
+    if out.get('k') == 'tuple':
+        ks = [k_ for k_, x in enumerate(out.get('e', [])) if x.get('name') == 'bool']
+        if len(ks) == 1:
+            t = p.lookup(('f', v, ks[0], 'tuple'))
+            return t if t in (True, False) else None
+    return None
+
+
 def upvar_index_of(body, op):
     """If operand is (a copy/move/reborrow of) closure upvar `_1.k` / `(*_1).k` return k."""
     p = op_place(op)
@@ -79,7 +124,8 @@ def s1_exactly_once(prog):
     tail = imp['self']['e'][1]['name']
     head = imp['self']['e'][0]
     hT = head['t']['name'] if head.get('k') == 'ref' and head['t'].get('k') == 'param' else None
-    E = pathsem.analyse(prog, f)
+    is_helper = stage_helper(prog)
+    E = pathsem.analyse(prog, f, inline=is_helper, max_paths=20000)
     rets = [p for p in E.paths if p.ended == 'return']
     rep = set()
 
@@ -145,7 +191,9 @@ def s1_exactly_once(prog):
         ga = [a_ for a_ in t['f'].get('args', []) if a_.get('k') != 'region']
         if not (ga and is_param(ga[0], tail)):
             once('S1', 'rest-tail-self', t['ln'], 'the rest of the stage must be the tail stage U')
-        acc = [e for e in p.calls(lambda e: e['name'] == 'query_archetype_identifiers_unchecked') if e['i'] < t['i']]
+        def takes_map(e):
+            return any(S(v) == P.get('borrowed_archetypes') for v in e['vals'])
+        acc = [e for e in p.calls_any(lambda e: e['name'] == 'query_archetype_identifiers_unchecked' or (e.get('callee') is not None and is_helper(e['callee']) and takes_map(e))) if e['i'] < t['i']]
         if len(acc) != 1:
             once('S4', 'claims-not-recorded', None, 'the running task\'s archetype claims are not recorded (on every path) before the rest of the stage / the add-ons are started')
         else:
@@ -156,9 +204,12 @@ def s1_exactly_once(prog):
             # recorded through `&mut map` (the same map goes on) or by value (the returned map goes on)
             cal = prog.fns.get((acc[0]['f'].get('res') or acc[0]['f']).get('dp'))
             out_ = (cal.d.get('output') if cal is not None else None) or {}
-            by_value = not (out_.get('k') == 'tuple' and not out_.get('e')) and bool(out_)
-            fwd = acc[0]['ret'] if by_value else m_
-            if m_ != P.get('borrowed_archetypes') or len(t['vals']) < 3 or S(t['vals'][2]) != fwd:
+            by_value = out_.get('k') == 'adt' and 'HashMap' in out_.get('path', '')
+            fwd = [S(acc[0]['ret'])] if by_value else [m_]
+            if acc[0].get('inlined') and acc[0].get('leave') is not None and not by_value:
+                outs = p.events[acc[0]['leave']].get('outs') or ()
+                fwd = [S(o) for a_, o in zip(acc[0]['vals'], outs) if S(a_) == P.get('borrowed_archetypes')] or fwd
+            if m_ != P.get('borrowed_archetypes') or len(t['vals']) < 3 or S(t['vals'][2]) not in fwd:
                 once('S4', 'claims-map-not-forwarded', t['ln'], 'the map handed to the rest of the stage is not the one the task\'s claims were recorded in')
         mrg = [e for e in p.calls(lambda e: e['name'] in ('merge_unchecked', 'try_merge') and 'claim' in e['path']) if e['i'] < t['i']]
         good = None
@@ -213,7 +264,8 @@ def s2_flag_iff_ran(prog):
     imp = imps[0]
     f = method(prog, imp, 'run_add_ons')
     key = 'Stage::run_add_ons for (&mut T, U)'
-    E = pathsem.analyse(prog, f)
+    is_helper = stage_helper(prog)
+    E = pathsem.analyse(prog, f, inline=is_helper, max_paths=20000)
     rets = [p for p in E.paths if p.ended == 'return']
     if E.truncated or not rets:
         r.viol('S2', key + '/not-analysable', f.loc(), 'path enumeration cut off')
@@ -285,12 +337,12 @@ def s2_flag_iff_ran(prog):
             once('S3', 'fork-not-guarded-by-resources', joins[0]['ln'] if joins else None, 'the early start is not guarded by a successful merge of resource claims: a task could start while a conflicting resource is in use')
         elif good_tm is None:
             once('S3', 'resource-check-operands', tms[0]['ln'], 'resource admission must merge the running claims with this task\'s resource claims')
-        qas = [e for e in p.calls(lambda e: e['name'] == 'query_archetype_identifiers')]
-        def admitted(e):
-            # `true`, or `Ok(map to go on with)`
-            return p.lookup(e['ret']) is True or p.lookup(('discr', e['ret'])) == 0 and (e['f'].get('res') or e['f']).get('dp') in prog.fns and \
-                is_adt(prog.fns[(e['f'].get('res') or e['f'])['dp']].d.get('output') or {}, 'core::result::Result')
-        good_q = [e for e in qas if admitted(e) and any(pathsem.strip_refs(v) == ('p', p_map, 'borrowed_archetypes') for v in e['vals'])]
+        # the archetype admission: the helper of this module that is handed the claim map (read inline or, if it cannot
+        # be, as a call whose result the path tested)
+        def takes_map(e):
+            return any(pathsem.strip_refs(v) == ('p', p_map, 'borrowed_archetypes') for v in e['vals'])
+        qas = [e for e in p.calls_any(lambda e: e['name'] == 'query_archetype_identifiers' or (e.get('callee') is not None and is_helper(e['callee']) and takes_map(e)))]
+        good_q = [e for e in qas if helper_verdict(prog, p, e) is True and takes_map(e)]
         if not qas:
             once('S3', 'no-archetype-check', None, 'add-on admission does not check archetype claims')
         elif not good_q:
@@ -305,8 +357,15 @@ def s2_flag_iff_ran(prog):
                 once('S3', 'merged-resources-not-forwarded', tails[0]['ln'], 'the forked path does not carry the merged resource claims: later add-ons would not see this task\'s resources')
         upd = [('p', p_map, 'borrowed_archetypes')]
         for e in good_q:
-            if p.lookup(e['ret']) is not True:
-                upd = [('f', ('down', e['ret'], 'Ok', 0), 0, 'core::result::Result')]      # the map the admission returned
+            v_ = e['ret']
+            if isinstance(v_, tuple) and v_[0] == 'agg' and v_[1] == 'core::result::Result' and v_[2] == 'Ok':
+                upd = [pathsem.strip_refs(v_[4][0])]                                           # the map the admission returned
+            elif not e.get('inlined') and p.lookup(v_) is not True and p.lookup(('discr', v_)) == 0:
+                upd = [('f', ('down', v_, 'Ok', 0), 0, 'core::result::Result')]
+            if e.get('inlined') and e.get('leave') is not None:
+                # what the admission left in the caller's map (written through the `&mut`)
+                outs = p.events[e['leave']].get('outs') or ()
+                upd += [pathsem.strip_refs(o) for a_, o in zip(e['vals'], outs) if pathsem.strip_refs(a_) == ('p', p_map, 'borrowed_archetypes')]
         if tails and not any(pathsem.strip_refs(v) in upd for v in tails[0]['vals']):
             once('S3', 'updated-map-not-forwarded', tails[0]['ln'], 'the forked path does not carry the updated claim map')
     r.inst(key + ': %d returning paths' % len(rets))
@@ -483,6 +542,10 @@ def s3_query_archetype_identifiers(prog):
                 verdict = pathsem.FALSE
                 if payload != param:
                     once('commit-on-conflict', None, 'on a conflict the caller must get its own claim map back unchanged (got %s)' % pathsem.tstr(payload)[:60])
+        if isinstance(verdict, tuple) and verdict[0] == 'agg' and verdict[1] == 'tuple':
+            # the yes/no travels next to something else the caller gets back (e.g. merged resource claims)
+            hv = helper_verdict(prog, p, {'ret': verdict, 'callee': f})
+            verdict = pathsem.TRUE if hv is True else pathsem.FALSE if hv is False else verdict
         if verdict == pathsem.TRUE:
             n_true += 1
             if failed:
